@@ -47,6 +47,7 @@ compare(const ByteBuffer *b, const unsigned char *mem, const struct model *m, co
 }
 
 static int add_from_self;
+static int consume_into_self; /* the next accepted consume delivers into the buffer's own memory, in front of the read mark */
 static size_t atmost_huge; /* > 0: the next consume_at_most asks for this many octets */
 enum { OP_ADD, OP_CONSUME, OP_ATMOST, OP_REWIND, OP_RESET, OP_CLEAR, OP_REPEAT, NOPS };
 static const char *opname[] = { "add", "consume", "consume_at_most", "rewind", "reset", "clear", "repeat" };
@@ -97,7 +98,27 @@ step(ByteBuffer *b, unsigned char *mem, struct model *m, int op, size_t n, const
                 vh_poison(d, n);
             }
         }
+        /* compaction by hand: the destination lies in the buffer's own memory, within the octets that were consumed
+         * before (somewhere in [0, offset) - disjoint from what is read, so as legal as any other destination) */
+        size_t self_at = SIZE_MAX;
+        static unsigned char self_exp[MAXSZ];
+        if (consume_into_self && n > 0 && n <= m->used - m->offset && n <= m->offset) {
+            self_at = (n + m->used) % (m->offset - n + 1);
+            d = b->data + self_at;
+            memcpy(self_exp, m->img + m->offset, n);
+            VH_COUNT("consume into the buffer's own memory in front of the read mark");
+        }
         int rc = byte_buffer_consume(b, d, n);
+        if (self_at != SIZE_MAX && rc == 0) {
+            /* that part of the memory holds the delivered octets now */
+            memcpy(memb + self_at, self_exp, n);
+            memcpy(m->img + self_at, self_exp, n);
+            if (memcmp(d, self_exp, n) != 0)
+                vh_fail("consume-data", "op=consume", "%s into own memory at %zu: got %s expected %s", ctx, self_at, vh_hex(d, n), vh_hex(self_exp, n));
+            m->offset += n;
+            image_fixed = 1;
+            break;
+        }
         if (n > m->used - m->offset) {
             VH_COUNT("consume refused (too few unread)");
             if (rc >= 0)
@@ -513,6 +534,7 @@ u_history(uint64_t idx, void *arg)
                 atmost_huge = hugev[vh_below(&r, 5)];
                 VH_COUNT("consume_at_most asking for more than SSIZE_MAX octets");
             }
+            consume_into_self = op == OP_CONSUME && vh_chance(&r, 1, 3);
             add_from_self = 0;
             if (op == OP_ADD && n > 0 && n <= m.used && n <= m.size - m.used && vh_chance(&r, 1, 3)) {
                 memcpy(src, m.img, n);
@@ -522,6 +544,7 @@ u_history(uint64_t idx, void *arg)
             uint64_t fails_before = *vh_nfail;
             step(&b, mem, &m, op, n, src, "history");
             add_from_self = 0;
+            consume_into_self = 0;
             atmost_huge = 0;
             if (*vh_nfail != fails_before) {
                 /* re-synchronise the model so that one defect is reported once, not as a cascade */
@@ -665,7 +688,8 @@ harness_run(void)
                                  "history: buffer size above 254", "set-up with values at the extremes of size_t",
                                  "consume that must be refused, without a destination",
                                  "add whose source is the buffer's own filled region",
-                                 "consume_at_most asking for more than SSIZE_MAX octets" };
+                                 "consume_at_most asking for more than SSIZE_MAX octets",
+                                 "consume into the buffer's own memory in front of the read mark" };
     for (size_t i = 0; i < sizeof req / sizeof req[0]; i++)
         vh_require(req[i]);
 }
